@@ -11,6 +11,17 @@ for name in sorted(os.listdir(root)):
         am = json.load(open(os.path.join(d, "meta.agent.json")))
     except Exception:
         pass
+    if name.startswith("H"):
+        # behaviour-preserving change: every anchored check is expected to stay OK
+        vo = open(os.path.join(d, "vcheck.out")).read() if os.path.exists(os.path.join(d, "vcheck.out")) else ""
+        oks = [l.split()[1].split("=")[1] for l in vo.splitlines() if l.startswith("OK ")]
+        viol = [l for l in vo.splitlines() if l.startswith("VIOLATION") or l.startswith("CHECK-ERROR")]
+        meta = {"kind": "harmless", "summary": am.get("summary"), "edits": am.get("edits"), "files_changed": am.get("files_changed"),
+                "produced_by": "independent sub-agent asked for a behaviour-preserving clean-up of the named files",
+                "our_checks": {"ok": oks, "alarms": viol, "false_alarm": bool(viol)}}
+        json.dump(meta, open(os.path.join(d, "meta.json"), "w"), indent=1)
+        print(name, "harmless: OK", oks, "alarms", len(viol))
+        continue
     conf = open(os.path.join(d, "confirm.log")).read() if os.path.exists(os.path.join(d, "confirm.log")) else ""
     vo = open(os.path.join(d, "vcheck.out")).read() if os.path.exists(os.path.join(d, "vcheck.out")) else ""
     m = re.search(r"pristine_demo_rc=(\d+) build_rc=(\d+) existing_tests_rc=(\d+) changed_demo_rc=(\d+)", conf)
